@@ -238,7 +238,7 @@ class PluginGen(object):
         stype, sname = rng.choice([("gcode", "afterPrintDone"), ("gcode", "afterPrintDone"),
                                    ("gcode", "afterPrintCancelled"), ("gcode", "beforePrintStarted"),
                                    ("snippet", "afterPrintDone"), ("gcode", "afterPrintPaused")])
-        self.steps.append(("hook", stype, sname))
+        self.steps.append(("hook", stype, sname, self.rng.random() < 0.15))
 
     def act_print(self, full=True):
         """PrintStarted, a program (possibly cut short), an end event."""
@@ -293,7 +293,7 @@ class PluginGen(object):
                 self.steps.append(step)
             return
         if rng.random() < 0.55:
-            self.steps.append(("hook", "gcode", "afterPrintDone"))
+            self.steps.append(("hook", "gcode", "afterPrintDone", rng.random() < 0.15))
             if rng.random() < 0.3:
                 self.steps.append(("hook", "gcode", "afterPrintDone"))
         if rng.random() < 0.9:
@@ -365,9 +365,13 @@ def _covers(new, old):
             (old["cx"] - old["r"], old["cy"] - old["r"], old["cx"] + old["r"], old["cy"] + old["r"])
         return new["x1"] <= box[0] and new["y1"] <= box[1] and new["x2"] >= box[2] \
             and new["y2"] >= box[3]
+    if new["r"] < 0:
+        return old["t"] == "circ" and old["r"] < 0      # empty covers only empty
     if old["t"] == "rect":
         return all((x - new["cx"]) ** 2 + (y - new["cy"]) ** 2 <= new["r"] ** 2
                    for x in (old["x1"], old["x2"]) for y in (old["y1"], old["y2"]))
+    if old["r"] < 0:
+        return True
     gap = new["r"] - old["r"]
     return gap >= 0 and (new["cx"] - old["cx"]) ** 2 + (new["cy"] - old["cy"]) ** 2 <= gap ** 2
 
@@ -406,8 +410,11 @@ def fine_history(seed):
         new = dict(old)
         if old["t"] == "circ":
             how = rng.choice(["shrink", "shrink", "shift", "shift", "grow", "tangent", "short",
-                              "same", "box", "boxcut"])
-            if how == "shrink":
+                              "same", "box", "boxcut", "negative"])
+            if how == "negative":
+                # a radius whose square is large enough, but which is negative (an empty disc)
+                new["r"] = -(abs(old["r"]) + rng.choice([0, d, 1000]))
+            elif how == "shrink":
                 new["r"] = max(0, old["r"] - d)
             elif how == "shift":
                 new[rng.choice(["cx", "cy"])] += rng.choice([-d, d])
@@ -428,8 +435,15 @@ def fine_history(seed):
                     side = rng.choice(["x1", "y1", "x2", "y2"])
                     new[side] += d if side in ("x1", "y1") else -d
         else:
-            how = rng.choice(["cut", "cut", "grow", "slide", "same", "swap"])
-            if how == "cut":
+            how = rng.choice(["cut", "cut", "grow", "slide", "same", "swap", "negdisc"])
+            if how == "negdisc":
+                # the disc around the rectangle, with the sign of the radius flipped
+                half = max(old["x2"] - old["x1"], old["y2"] - old["y1"])
+                if half > 20000:
+                    continue
+                new = {"t": "circ", "id": old["id"], "cx": (old["x1"] + old["x2"]) // 2,
+                       "cy": (old["y1"] + old["y2"]) // 2, "r": -(half + d)}
+            elif how == "cut":
                 side = rng.choice(["x1", "y1", "x2", "y2"])
                 new[side] += d if side in ("x1", "y1") else -d
             elif how == "grow":
